@@ -3,6 +3,8 @@
 //! The projections tolerate additions to the library's enums and structs (wildcard arms, `..` patterns): an added
 //! variant shows up as a disagreement with the specification, not as a harness that no longer builds.
 #![allow(unreachable_patterns)]
+#[cfg(feature = "std")]
+mod bits;
 mod project;
 #[cfg(feature = "std")]
 mod reader;
@@ -406,6 +408,8 @@ fn main() {
         Some("track") => track::cmd_track(),
         #[cfg(feature = "std")]
         Some("reader") => reader::cmd_reader(),
+        #[cfg(feature = "std")]
+        Some("bits") => bits::cmd_bits(),
         Some("nlsweep") => cmd_nlsweep(),
         Some("config") => {
             println!("{}", if cfg!(feature = "std") { "std" } else { "alloc" });
